@@ -42,6 +42,9 @@ CELLS = {
     'RUN': ['RUN %default Unit { Elt "q" 1 }'],
     'PUSH': ['PUSH nat 7'],
     'DUMP': ['DUMP'],
+    # a big_map whose values are NOT duplicable (tickets): snapshots must still be taken and restored (a guard against DUP must not leak
+    # into the interpreter's own backup copies)
+    'EMPTY_TK': ['EMPTY_BIG_MAP nat (ticket string)', 'PUSH nat 5', 'PUSH string "t"', 'TICKET', 'ASSERT_SOME', 'SOME', 'PUSH nat 1', 'UPDATE'],
 }
 CELL_NAMES = list(CELLS)
 
@@ -355,7 +358,19 @@ def extend_ok(w):
         o = run_session(tuple(w) + (c,), snap_from=len(w) + 1)
         if not o[-1]['err']:
             out.append(c)
+        elif o[-1].get('raised') and o[-1]['raised'].startswith(('MichelsonRuntimeError', 'MichelsonParserError')):
+            ESCAPED.append((tuple(w) + (c,), o[-1]['raised']))
     return tuple(w), out
+
+
+ESCAPED = []      # (session, exception text): Michelson failures that ESCAPED Interpreter.execute (debug off) instead of being reported
+
+
+def extend_ok_escaped(w):
+    """extend_ok + the escaped failures seen while extending (worker-side list is returned, not shared)"""
+    del ESCAPED[:]
+    r = extend_ok(w)
+    return r[0], r[1], list(ESCAPED)
 
 
 def fail_variants(w0, succ, kinds):
